@@ -200,6 +200,8 @@ class MerchantEngine:
                 if match:
                     lhs, rhs = match.groups()
                     try:
+                        # Validate the expression now so a bad one is reported with its line
+                        expr_parser.parse_expression(rhs)
                         if lhs.startswith('field.'):
                             # Field transform: field.description = regex_replace(...)
                             self.transforms.append((lhs, rhs))
